@@ -20,7 +20,12 @@ META = {
             "fsObjects.Create/commit, isValidKey's syntax and mem's copy-in/copy-out are regenerated from /repo on "
             "every run and the theorems are stated over those generated objects; the models are tied to the code by "
             "differential runs (fault enumeration, forced and free interleavings, every corruption/truncation/"
-            "extension) evaluated inside Coq.",
+            "extension) evaluated inside Coq.  Round 3: what a generation of calls leaves is a well-formed directory for "
+            "a store object opened later (restart), strings that are not keys are never found and a key is one plain file "
+            "name, the mapped store over ANY user Store hands on a result only when the Store reported no error (all three "
+            "result shapes); the harness also reopens stores, plants files that path-like keys would reach, injects "
+            "staging-directory and write failures, drives Hash/HashStr/HashReader/HashFile and the JSON helpers over "
+            "misbehaving user Objects, and check readers over sources that continue after errors.",
     "note": "Trusted: Coq kernel + vm_compute; translator gen/obj.go; harness; SHA-256 is a function parameter "
             "(table instance computed by Go); rename(2) atomicity, unique temp names, success of the deferred "
             "os.Remove, sync.RWMutex and the OS file system are modelled, not verified; no crash-durability claim "
@@ -128,7 +133,8 @@ def tx_obs(tab, o):
     return "(%d)" % OBS_TAG.get(t, 4)
 
 
-FAULT_CODE = {"createtemp": 0, "rename": 1}
+FAULT_CODE = {"createtemp": 0, "rename": 1, "tmpisfile": 0, "tmpgone": 0, "tmpstillgone": 0, "teewrite": 2}
+HARNESS_ONLY_OPS = ("newfs", "plant")      # no effect on the modelled directory state (NewFS = MkdirAll of tmp/)
 
 
 def tx_fop(tab, op):
@@ -154,6 +160,10 @@ def tx_hop(tab, op):
         return "(3 %s)" % tx_script(op.get("script"))
     if o == "pcreate":
         return "(7 %s)" % tx_script(op.get("script"))
+    if o == "ucreate":
+        return "(10 %s %d %d)" % (tx_script(op.get("script")), op.get("h", 0), op.get("e", 0))
+    if o in ("uopen", "uhas"):
+        return "(%d %s %d %d)" % (11 if o == "uopen" else 12, tab.key(op.get("key", "")), op.get("h", 0), op.get("e", 0))
     return "(%d %s)" % (HOP_KEYED[o], tab.key(op.get("key", "")))
 
 
@@ -171,10 +181,19 @@ def tx_Z(n):
 def to_text(c):
     st = c["stream"]
     tab = Tab(c.get("tab"))
+    if st == "hash":
+        def xop(op):
+            if op.get("fault"):
+                return "(4)"
+            if op["op"] == "hashreader":
+                return "(2 %s)" % tx_script(op.get("script"))
+            return "(0 %s)" % tx_segs(op.get("b"))
+        return "(6 %s %s %s)" % (tab.text(), tx_list(xop(o) for o in c["ops"]), tx_list(tx_obs(tab, o) for o in c["obs"]))
     if st.startswith("fs-"):
         fin = c.get("final") or {}
+        pairs = [(op, o) for op, o in zip(c["ops"], c["obs"]) if op["op"] not in HARNESS_ONLY_OPS]
         return "(0 %s %s %s %s %d)" % (
-            tab.text(), tx_list(tx_fop(tab, o) for o in c["ops"]), tx_list(tx_obs(tab, o) for o in c["obs"]),
+            tab.text(), tx_list(tx_fop(tab, op) for op, _ in pairs), tx_list(tx_obs(tab, o) for _, o in pairs),
             tx_list(tab.key(k) for k in fin.get("keys", [])), len(fin.get("tmps", [])))
     if st == "sched":
         steps = []
@@ -287,6 +306,9 @@ def oracle_fs_hist(c):
         elif op["op"] == "has":
             if o["t"] != "bool" or bool(o.get("v")) != (op.get("key", "") in expected):
                 out.append(("has-answered-wrongly", "%s: %s" % (where, o)))
+        elif op["op"] == "newfs":
+            if o["t"] != "unit":
+                out.append(("store-could-not-be-opened-again-on-its-own-directory", "%s: %s %s" % (where, o["t"], o.get("msg", ""))))
         check_ls(op.get("ls"), list(expected), "after " + where, out)
     check_ls(c.get("final"), list(expected), "at the end", out)
     fds = c.get("fds") or [0, 0]
@@ -319,6 +341,28 @@ def oracle_mem_hist(c):
                     expected.setdefault(o["key"], content)
         elif name in ("create", "pcreate"):
             oracle_create(o, op.get("script"), None, expected, where, out)
+        elif name == "ucreate":
+            shape = op.get("h", 0)
+            content, st_, e_ = script_delivered(op.get("script"))
+            if shape == 0 or st_ != 1:
+                oracle_create(o, op.get("script"), None, expected, where, out)
+            else:
+                # the user's Store failed in Put (shape 2: after storing, returning the key WITH the error)
+                if o["t"] == "key":
+                    out.append(("mapped-create-returned-a-key-although-the-store-reported-an-error",
+                                "%s: Put returned %s and error %d" % (where, "the key" if shape == 2 else "no key", op.get("e", 0))))
+                elif o["t"] != "errin" or o.get("e") != op.get("e", 0):
+                    out.append(("mapped-create-lost-the-store-error", "%s: %s" % (where, o)))
+                if shape == 2:
+                    expected.setdefault(sha(content), content)
+        elif name in ("uopen", "uhas") and op.get("h", 0) != 0:
+            # the user's Store failed (shape 2: handing out bytes / true TOGETHER with the error)
+            if o["t"] in ("found", "bool", "notfound"):
+                out.append(("mapped-%s-returned-a-result-although-the-store-reported-an-error" % name[1:],
+                            "%s: Store returned %s and error %d; mapped store answered %s"
+                            % (where, "a non-zero result" if op["h"] == 2 else "the zero result", op.get("e", 0), o["t"])))
+            elif o["t"] != "errin" or o.get("e") != op.get("e", 0):
+                out.append(("mapped-%s-lost-the-store-error" % name[1:], "%s: %s" % (where, o)))
         elif name == "get":
             if o["t"] == "found":
                 got = seg_bytes(o.get("b"))
@@ -331,13 +375,13 @@ def oracle_mem_hist(c):
                     out.append(("created-object-not-found", where))
             else:
                 out.append(("get-failed", "%s: %s" % (where, o)))
-        elif name in ("open", "popen"):
+        elif name in ("open", "popen", "uopen"):
             if o["t"] == "found" and k in expected and seg_bytes(o.get("b")) != expected[k]:
                 out.append(("stored-object-changed-after-a-client-wrote-into-a-slice-it-held",
                             "%s: %s(%s..) returned bytes hashing to %s.." % (where, name, k[:12], sha(seg_bytes(o.get("b")))[:12])))
             else:
                 oracle_read(o, k, expected, where, out)
-        elif name in ("has", "phas"):
+        elif name in ("has", "phas", "uhas"):
             if o["t"] != "bool" or bool(o.get("v")) != (k in expected):
                 out.append(("has-answered-wrongly", "%s: %s" % (where, o)))
     return out
@@ -500,6 +544,9 @@ def oracle_json(c):
                 out.append(("createjson-returned-a-key-that-is-not-the-sha256-of-the-marshalled-value", where))
             else:
                 created.add(want)
+        elif op["op"] == "cjson-bad":  # a value json.Marshal refuses
+            if o["t"] in ("key", "bool") or o.get("key"):
+                out.append(("createjson-returned-a-key-for-a-value-that-cannot-be-marshalled", "%s: %s" % (where, o)))
         elif op.get("h") == 1:        # read back what CreateJSON stored
             if o["t"] != "bool" or not o.get("v"):
                 out.append(("readjson-did-not-give-the-stored-value-back", "%s: %s" % (where, o)))
@@ -512,8 +559,110 @@ def oracle_json(c):
         elif op.get("h") == 3:        # the first value is decoded, the rest of the object is ignored
             if o["t"] != "bool" or not o.get("v"):
                 out.append(("readjson-did-not-decode-the-leading-value", "%s: %s" % (where, o)))
+        elif op.get("h") == 4:        # the object holds a value of another type
+            if o["t"] == "bool":
+                out.append(("readjson-accepted-a-value-of-the-wrong-type", "%s: %s" % (where, o)))
+        elif op.get("h") in (5, 7):   # the user's Objects: reader failing part-way / a reader together with an error
+            if o["t"] == "bool":
+                out.append(("readjson-decoded-although-open-or-read-failed", "%s: got %r" % (where, o.get("msg"))))
     if c.get("final") is not None:
         check_ls(c["final"], None, "at the end", out)
+    fds = c.get("fds") or [0, 0]
+    if c.get("kind") == "fs" and fds[0] >= 0 and fds[1] > fds[0]:
+        out.append(("file-descriptor-left-open", "%d descriptors before, %d after" % (fds[0], fds[1])))
+    return out
+
+
+def oracle_hash(c):
+    out = []
+    for i, (op, o) in enumerate(zip(c["ops"], c["obs"])):
+        where = "op %d (%s)" % (i, op["op"])
+        if op.get("fault"):
+            if o["t"] == "key":
+                out.append(("hashfile-returned-a-digest-for-a-%s-file" % op["fault"], "%s: %s" % (where, o.get("key"))))
+            continue
+        if op["op"] == "hashreader":
+            content, st_, e_ = script_delivered(op.get("script"))
+            if st_ == 2:
+                if o["t"] == "key":
+                    out.append(("hashreader-returned-a-digest-although-the-reader-failed", "%s: after %d bytes" % (where, len(content))))
+                elif o["t"] != "errin" or o.get("e") != e_:
+                    out.append(("hashreader-lost-the-reader-error", "%s: %s" % (where, o)))
+                continue
+        else:
+            content = seg_bytes(op.get("b"))
+        if o["t"] != "key" or o.get("key") != sha(content):
+            out.append(("%s-is-not-the-sha256-of-the-content" % op["op"],
+                        "%s: %d bytes, got %s want %s" % (where, len(content), o.get("key") or o["t"], sha(content))))
+    fds = c.get("fds") or [0, 0]
+    if fds[0] >= 0 and fds[1] > fds[0]:
+        out.append(("file-descriptor-left-open", "%d descriptors before, %d after" % (fds[0], fds[1])))
+    return out
+
+
+def oracle_ctor(c):
+    out = []
+    kind = c.get("kind")
+    obs = c.get("obs") or [{"t": "?"}]
+    if kind in ("dirisfile", "tmpisfile"):
+        if obs[0]["t"] in ("unit", "key") or obs[0].get("v"):
+            out.append(("newfs-accepted-a-directory-that-cannot-hold-a-store", "%s: %s" % (kind, obs[0])))
+        return out
+    if obs[0]["t"] != "unit":
+        return [("newfs-failed-on-a-usable-directory", "%s: %s %s" % (kind, obs[0]["t"], obs[0].get("msg", "")))]
+    key = c["ops"][1]["key"]
+    if obs[1]["t"] != "key" or obs[1].get("key") != key:
+        out.append(("create-failed-on-a-good-input", "%s: %s" % (kind, obs[1])))
+    if obs[2]["t"] != "found" or sha(seg_bytes(obs[2].get("b"))) != key:
+        out.append(("created-object-not-found", "%s: %s" % (kind, obs[2]["t"])))
+    if obs[3]["t"] != "bool" or not obs[3].get("v"):
+        out.append(("has-answered-wrongly", "%s: %s" % (kind, obs[3])))
+    check_ls(c.get("final"), [key], "in the directory NewFS was given", out)
+    if c.get("strays"):
+        out.append(("foreign-file-touched", c["strays"]))
+    return out
+
+
+def oracle_cr_calls(c):
+    """for underlying readers that go on after an error or an end-of-stream, and callers with empty buffers; read off
+    positions in the byte stream, not call numbers (so a reader that answers an empty buffer itself is fine): a call
+    reports end-of-stream only where the underlying reader reported one and everything delivered up to there has the
+    expected digest and, if declared, length; if the underlying reader's last word is such an end-of-stream the
+    caller's last word is end-of-stream; underlying errors are passed through in order; bytes are unchanged"""
+    out = []
+    want = bytes.fromhex(c.get("want", ""))
+    n = c["n"]
+    sc = c.get("script") or {"c": [], "k": []}
+    tr = c.get("trace") or {"c": [], "k": []}
+    sbytes, tbytes = seg_bytes(sc.get("c")), seg_bytes(tr.get("c"))
+    if tbytes != sbytes[:len(tbytes)]:
+        out.append(("bytes-handed-on-differ-from-the-underlying-stream", "%d bytes" % len(tbytes)))
+
+    def good(acc):
+        return hashlib.sha256(acc).digest() == want and (n < 0 or len(acc) == n)
+
+    eof_at, fails, pos, last = set(), [], 0, None
+    for sn, st_, e_ in sc.get("k", []):
+        pos += sn
+        if st_ == 1:
+            eof_at.add(pos)
+        if st_ == 2:
+            fails.append(100 + e_)
+        if st_ != 0 or sn:
+            last = (pos, st_)
+    pos, codes = 0, []
+    for tn, code in tr.get("k", []):
+        pos += tn
+        if code:
+            codes.append(code)
+        if code == 1 and not (pos in eof_at and good(sbytes[:pos])):
+            out.append(("end-of-stream-reported-although-what-was-delivered-is-not-the-expected-stream",
+                        "%d bytes handed on so far; underlying reader reported end-of-stream at %s; declared %d"
+                        % (pos, sorted(eof_at), n)))
+    if last and last[1] == 1 and good(sbytes[:last[0]]) and len(tbytes) == len(sbytes) and (not codes or codes[-1] != 1):
+        out.append(("genuine-stream-rejected", "last code %s" % (codes[-1:] or "none")))
+    if [x for x in codes if x >= 100] != fails:
+        out.append(("underlying-error-not-passed-through", "underlying %s, handed on %s" % (fails, [x for x in codes if x >= 100])))
     return out
 
 
@@ -521,6 +670,12 @@ def impl_oracle(c):
     st = c["stream"]
     if st == "json":
         return oracle_json(c)
+    if st == "hash":
+        return oracle_hash(c)
+    if st == "ctor":
+        return oracle_ctor(c)
+    if st in ("cr-resume", "cr-zerobuf"):
+        return oracle_cr_calls(c)
     if st == "fs-peek":
         return oracle_peek(c)
     if st.startswith("fs-"):
@@ -690,7 +845,7 @@ def run(ck):
     if cases and model_ok:
         # a shard is one Coq file; its text is cut into literals short enough for Coq's stack
         # megabyte contents, contract-breaking readers, encoding/json: oracle only
-        corr_cases = [c for c in cases if c["stream"] not in ("fs-peek", "cr-contract", "cr-huge", "json")]
+        corr_cases = [c for c in cases if c["stream"] not in ("fs-peek", "cr-contract", "cr-huge", "json", "ctor")]
         texts = [to_text(c) for c in corr_cases]
         parts = []
         cur, cur_n, cur_start = [], 0, 0
@@ -738,7 +893,8 @@ def run(ck):
         checker_cmd="bin/check C18 (gen -> make -C coq theories/Props/C18.vo -> Print Assumptions audit -> "
                     "harness c18 vs vm_compute of Obj/ObjCorr.v)",
         trusted=["Coq 8.16.1 kernel + vm_compute",
-                 "translator gen/obj.go (statement skeleton of Create/commit, key syntax, copy flags, function texts)",
+                 "translator gen/obj.go (statement skeleton of Create/commit, key syntax, copy flags, shape of "
+                 "createTemp, function texts)",
                  "harness/cmd/c18 + checks/c18.py comparison and oracle",
                  "SHA-256 as a function: table computed by Go's crypto/sha256 (streaming = one-shot is the stdlib's)",
                  "modelled not verified: rename(2) atomicity, unique temp names, deferred os.Remove succeeds, "
@@ -747,7 +903,13 @@ def run(ck):
              "single-byte corruption x3 masks, every truncation point, appended bytes, with/without declared length, "
              "five read-size patterns, both EOF styles, staged OS faults, stray files) + seeded streams (splitmix64: "
              "histories, forced interleavings of 2-5 creates, free runs of 2-16 goroutines with concurrent Open/Has, "
-             "random check-reader mixtures); a case is non-trivial unless it has no operation/script; distinct = "
+             "random check-reader mixtures) + round-3 usage patterns (histories continued through new store objects on the "
+             "same directory, NewFS while calls are in flight, NewFS on unusable directories, staging directory missing / a file "
+             "/ gone until reopened, unwritable temp file via RLIMIT_FSIZE, keys with one character just outside the accepted "
+             "ranges at three positions, 64-byte path-like keys pointing at planted files, the mapped store over a user Store "
+             "returning zero or non-zero results together with errors, Hash/HashStr/HashReader/HashFile at block and copy-buffer "
+             "sizes, JSON helpers over misbehaving user Objects, check readers over sources that continue after errors and "
+             "end-of-stream, empty caller buffers); a case is non-trivial unless it has no operation/script; distinct = "
              "distinct (stream, operations with their recorded reader scripts, schedule)",
         assumptions=["64-bit int; fewer than 2^63 bytes per stream",
                      "temp names (32 random bytes) do not collide",
